@@ -6,16 +6,23 @@
 //   h_fatal <dir> <tree> <end> <thread> <msgs> <fatalsize>
 //     tree   : F FileSink | R RotatingFileSink(limit 1 GiB: never rotates) | r RotatingFileSink(limit
 //              64 KiB: rotates) | D RotatingFileSink(no size limit, daily) | o PatternFormatter("%{message}")
+//              | B FileSink on /dev/full (every flush fails; takes a sink number, has no file)
+//              | filters: g FunctionFilter debug only | n FunctionFilter everything but fatal | e FunctionFilter
+//                even message ids | x RegExpFilter odd message ids | l LevelFilter(QtWarningMsg)
+//                | y CategoryFilter("*=false\n*.debug=true") (debug only)
 //              | ( ... ) nested SimplePipeline, all built with the handler-level API on gQtLogger;
 //              or a front-end: ONE  = gQtLogger.configure(path, 0, 0, None, /*async*/ false)
 //                              ONER = gQtLogger.configure(path, 1 GiB, 0, None, false)
 //                              FLU  = gQtLogger.format("%{message}").sendToFile(p0).sendToFile(p1, 1 GiB, 0)
 //                              FLUN = gQtLogger.format(..).sendToFile(p0).pipeline().sendToFile(p1).end()
+//                              FLUT = format(..).pipeline().filter(<debug only>).sendToFile(p0).end().sendToFile(p1)
+//                              FLUC = format(..).pipeline().filterCategory(<debug only>).sendToFile(p0, 1 GiB, 0).end().sendToFile(p1)
+//                              FLUB = format(..).sendToFile("/dev/full").sendToFile(p1)
 //              the k-th file sink in depth-first order writes <dir>/s<k>.log
 //     end    : fatal | kill
 //     thread : main (everything from the main thread) | sec (second half of the messages and the
 //              fatal message / the kill from a secondary thread) | qt (same, from a QThread)
-//     msgs   : - or comma separated <t><size>[*<count>], t in d w c i; fatalsize = bytes of the fatal text
+//     msgs   : - or comma separated <t><size>[*<count>], t in d w c i, or m = "diwc"[id % 4]; fatalsize = bytes of the fatal text
 // message i has the text "<i>:" padded with the letter 'a' + i % 26 to <size> bytes.
 #ifdef VERIF_HEADER_ONLY
 #include "qtlogger.h"
@@ -38,11 +45,13 @@ static std::string text_of(int id, int size)
         s.append(size - s.size(), char('a' + id % 26));
     return s;
 }
+static int msg_id(const LogMessage &m) { return m.message().section(QLatin1Char(':'), 0, 0).toInt(); }
 struct Msg { char t; int size; };
 static void emit_msg(int id, const Msg &m)
 {
     const std::string s = text_of(id, m.size);
-    switch (m.t) {
+    char t = m.t == 'm' ? "diwc"[id % 4] : m.t;
+    switch (t) {
     case 'd': qDebug("%s", s.c_str()); break;
     case 'w': qWarning("%s", s.c_str()); break;
     case 'c': qCritical("%s", s.c_str()); break;
@@ -75,6 +84,23 @@ int main(int argc, char **argv)
         auto p0 = path(), p1 = path();
         gQtLogger.format("%{message}").sendToFile(p0).pipeline().sendToFile(p1).end();
         gQtLogger.installMessageHandler();
+    } else if (tree == "FLUT") { // debug-only trace file in a scoped sub-pipeline next to the main file
+        auto p0 = path(), p1 = path();
+        gQtLogger.format("%{message}")
+                .pipeline().filter([](const LogMessage &m) { return m.type() == QtDebugMsg; }).sendToFile(p0).end()
+                .sendToFile(p1);
+        gQtLogger.installMessageHandler();
+    } else if (tree == "FLUC") { // per-category/level file (rotating) behind a category filter, next to the main file
+        auto p0 = path(), p1 = path();
+        gQtLogger.format("%{message}")
+                .pipeline().filterCategory(QStringLiteral("*=false\n*.debug=true")).sendToFile(p0, big, 0).end()
+                .sendToFile(p1);
+        gQtLogger.installMessageHandler();
+    } else if (tree == "FLUB") { // a file sink on a full device before a healthy one
+        nsink++;
+        auto p1 = path();
+        gQtLogger.format("%{message}").sendToFile(QStringLiteral("/dev/full")).sendToFile(p1);
+        gQtLogger.installMessageHandler();
     } else {
         std::vector<Pipeline *> stack { &gQtLogger };
         int depth = 0;
@@ -86,6 +112,13 @@ int main(int argc, char **argv)
             case 'R': cur->append(RotatingFileSinkPtr::create(path(), big, 0)); break;
             case 'r': cur->append(RotatingFileSinkPtr::create(path(), 65536, 0)); break;
             case 'D': cur->append(RotatingFileSinkPtr::create(path(), 0, 0, RotatingFileSink::RotationDaily)); break;
+            case 'B': nsink++; cur->append(FileSinkPtr::create(QStringLiteral("/dev/full"))); break;
+            case 'g': cur->append(FunctionFilterPtr::create([](const LogMessage &m) { return m.type() == QtDebugMsg; })); break;
+            case 'n': cur->append(FunctionFilterPtr::create([](const LogMessage &m) { return m.type() != QtFatalMsg; })); break;
+            case 'e': cur->append(FunctionFilterPtr::create([](const LogMessage &m) { return msg_id(m) % 2 == 0; })); break;
+            case 'x': cur->append(RegExpFilterPtr::create(QStringLiteral("^[0-9]*[13579]:"))); break;
+            case 'l': cur->append(LevelFilterPtr::create(QtWarningMsg)); break;
+            case 'y': cur->append(CategoryFilterPtr::create(QStringLiteral("*=false\n*.debug=true"))); break;
             case '(': {
                 // alternate scoped and unscoped nested pipelines
                 auto p = SimplePipelinePtr::create(/* scoped */ (depth++ % 2) == 0);
